@@ -594,7 +594,7 @@ class LimitRuleRun(Harness):
         sim = ctx.sim
         # with orders in step 0 the reference price itself is a solver term: the rate is then a concrete number
         # so that the band stays linear in the solver variables
-        r = g.real("r", 0, 1, lo_strict=True, hi_strict=True) if not case.get("only_m0") else 0.05
+        r = g.real("r", 0, 1, lo_strict=True, hi_strict=True) if case["active"][0] > 0 else 0.05
         for e in sim.events:
             if isinstance(e, PriceLimitRule):
                 e.trigger_change_rate = r
